@@ -349,12 +349,24 @@ Theorem alias_preserves :
     forall q, q <> a -> dask_get apply (fuse_step d (FAlias r a)) q = dask_get apply d q.
 Proof. exact alias_preserves_stmt. Qed.
 
-(* fuse_steps_preserve.  ANY sequence of legal inline / alias steps on ANY duplicate-free acyclic dict: the key
+(* fuse_steps_with_renaming_preserve (the engine in general; pharmpy no longer lets fuse rename, /repo c89db96).
+   ANY sequence of legal inline / alias steps on ANY duplicate-free acyclic dict: the key
    r (e.g. 'results'), provided no step removes it or introduces it as an alias, keeps its dask.get value; the
    final dict is duplicate free and acyclic.  This is what the tie re-applies step by step (tag 10). *)
-Theorem fuse_steps_preserve :
+Theorem fuse_steps_with_renaming_preserve :
   forall (apply : positive -> list sval -> sval) (r : positive) (steps : list fstep) (d dn : dsk),
     NoDup (dkeys d) -> length (dask_sched d) = length d ->
     avoids r steps = true -> fuse_steps d steps = (dn, true) ->
+    NoDup (dkeys dn) /\ length (dask_sched dn) = length dn /\ dask_get apply dn r = dask_get apply d r.
+Proof. exact fuse_steps_with_renaming_preserve_stmt. Qed.
+
+(* fuse_steps_preserve (no alias guard since /repo c89db96: optimize.py calls fuse(rename_keys=False)).  ANY sequence
+   of legal inline steps on ANY duplicate-free acyclic dict: the key r (e.g. 'results'), provided no step removes
+   it, keeps its dask.get value; the final dict is duplicate free and acyclic.  This is what the tie re-applies step
+   by step on every real optimized dict (tag 10, which also checks that no alias step occurs). *)
+Theorem fuse_steps_preserve :
+  forall (apply : positive -> list sval -> sval) (r : positive) (steps : list fstep) (d dn : dsk),
+    NoDup (dkeys d) -> length (dask_sched d) = length d ->
+    inline_only steps = true -> avoids r steps = true -> fuse_steps d steps = (dn, true) ->
     NoDup (dkeys dn) /\ length (dask_sched dn) = length dn /\ dask_get apply dn r = dask_get apply d r.
 Proof. exact fuse_steps_preserve_stmt. Qed.
